@@ -116,8 +116,9 @@ package cachekv
 //@   loop 1 invariant forall r int :: r != ref(store.unsortedCache) ==> Hmp_Str_S_anon_fa4d6974_v[r] == old(Hmp_Str_S_anon_fa4d6974_v[r])   // the presence sets of all other map[string]struct{} values
 //@   loop 2 invariant store.mtx == 1
 //@   loop 3 invariant store.mtx == 1
-// (seed C15e - the item's value copied with append([]byte(nil), v...), which turns an empty value into the nil tombstone -
-// is NOT detectable here: `unsorted` lives in heaps declared library state, so nothing can be said about the items)
+// every item collected for the sorted list carries its key and the value cached for that key - unchanged, so that an
+// empty value stays an empty value and is not mistaken for the nil tombstone (seed C15e)
+//@   loop 1 invariant forall j int :: 0 <= j && j < len(unsorted) ==> !isnil(unsorted[j]) && has(store.cache, str(unsorted[j].Key)) && unsorted[j].Value == store.cache[str(unsorted[j].Key)].value
 //@   ensures [domain] forall k string :: has(store.unsortedCache, k) == (old(has(store.unsortedCache, k)) && !(!bytes_lt(bytes(k), start) && (end == nil || bytes_lt(bytes(k), end))))
 //@   ensures [cache] forall k string :: has(store.cache, k) == old(has(store.cache, k)) && store.cache[k] == old(store.cache[k])
 
